@@ -191,7 +191,7 @@ class Rules:
         b = self.sub('R13', r'\bcrate::(?=[A-Z])', '', b)
         # R2 float literals (also as method receivers: 2.0f64.powi)
         b = self.sub('R2', r'(?<![\w.])(\d+\.\d+(?:e-?\d+)?|\d+\.\d*e-?\d+|\d+e-?\d+)(?:_?f64)?(?![\w])', lambda m: self.lit_name(m.group(0)), b)
-        b = self.sub('R2', r'(?<![\w.])(\d+)\.(?=\s*[;,)\]}])', lambda m: self.lit_name(m.group(1) + '.0'), b)
+        b = self.sub('R2', r'(?<![\w.])(\d+)\.(?=\s*[;,)\]}{])', lambda m: self.lit_name(m.group(1) + '.0'), b)
         # R3
         for a, c in (('f64::INFINITY', 'f64_infinity()'), ('f64::NEG_INFINITY', 'f64_neg_infinity()'),
                      ('f64::EPSILON', 'f64_epsilon()'), ('f64::NAN', 'f64_nan()')):
@@ -245,7 +245,8 @@ class Rules:
         b = self.sub('R13', r'debug_assert!' + PAREN + r';', '', b)
         b = self.sub('R8', r'log::\w+!' + PAREN + r';', '', b)
         # R19b: `Enum::Variant as i32` on prost enums -> generated conversion (codes are 0..n in declaration order, checked by v1types)
-        b = self.sub('R19', r'\b(Equality|Kind|Sense|Optimality|Relaxation)::(\w+) as i32\b', lambda m: '%s_as_i32(%s::%s)' % (m.group(1).lower(), m.group(1), m.group(2)), b)
+        b = self.sub('R19', r'((?:\b\w+::)*)\b(Equality|Kind|Sense|Optimality|Relaxation)::(\w+) as i32\b',
+                     lambda m: '%s_as_i32(%s%s::%s)' % (m.group(2).lower(), m.group(1), m.group(2), m.group(3)), b)
         # R12: iterator searches on a Vec -> trusted helpers whose contracts speak about the closure's own ensures
         RECV = r'((?:&?\w+)(?:\s*\.\s*\w+)*)'
         for meth, helper in (('position', 'iter_position'), ('find', 'iter_find'), ('any', 'iter_any'), ('all', 'iter_all')):
